@@ -168,7 +168,7 @@ def r17_1(ctx, R, counter):
                 import c04
                 win = any(c04.reads_window(ctx, b, a) for a in lo[2])
                 allowed = all(x[0] in ("const", "field", "param", "multi", "fn") or
-                              (x[0] == "call" and re.search(r"size_hint$|::len$|::is_empty$|Option::<.*>::(as_ref|map|unwrap_or)$|Deref", x[1] or "")) or
+                              (x[0] == "call" and re.search(r"size_hint$|::len$|::is_empty$|Option::<.*>::(as_ref|map|unwrap_or|map_or|map_or_else|unwrap_or_default)$|Deref", x[1] or "")) or
                               (win and x[0] == "call" and re.search(r"Wrapping<usize> as core::ops::Sub>::sub$|<impl usize>::wrapping_sub$", x[1] or ""))
                               for x in lv)
                 lo_ok = allowed
